@@ -455,7 +455,7 @@ func (s *sim) afterOp() {
 	// C06: no lock left held. RR waiters take a read lock for an instant on
 	// their 100ms tick, so retry before concluding.
 	locked := true
-	for i := 0; i < 50 && locked; i++ {
+	for i := 0; i < 200 && locked; i++ {
 		if s.b.mu.TryLock() {
 			s.b.mu.Unlock()
 			locked = false
